@@ -195,10 +195,29 @@ impl Ty {
     }
 }
 
+thread_local! {
+    /// when set, `()` is admitted where `!` is required: used only to recognise the known
+    /// finding "the filler of an exhausted iterator over an empty-typed array is ()"
+    static VOID_FOR_NEVER: std::cell::Cell<bool> = const { std::cell::Cell::new(false) };
+}
+
+/// runs `f` with `()` admitted as a value of `!`
+pub fn relaxed<T>(f: impl FnOnce() -> T) -> T {
+    VOID_FOR_NEVER.with(|v| v.set(true));
+    let r = f();
+    VOID_FOR_NEVER.with(|v| v.set(false));
+    r
+}
+
+fn relax() -> bool {
+    VOID_FOR_NEVER.with(|v| v.get())
+}
+
 /// The intended subtype relation (documentation + property C10), written independently.
 pub fn sub(a: &Ty, b: &Ty) -> bool {
     match (a, b) {
         (Ty::Never, _) => true,
+        (Ty::Void, Ty::Never) if relax() => true,
         (Ty::Union(ms), _) => ms.iter().all(|m| sub(m, b)),
         (_, Ty::Any) => true,
         (_, Ty::Union(ms)) => ms.iter().any(|m| sub(a, m)),
@@ -227,6 +246,7 @@ pub fn not_inhabits(v: &Variable, t: &Ty, depth: usize) -> Option<String> {
     let no = |what: &str| Some(format!("{} is not a {} ({what})", show(v), t.print()));
     match t {
         Ty::Any => None,
+        Ty::Never if relax() && matches!(v, Variable::Void) => None,
         Ty::Never => no("no value belongs to !"),
         Ty::Union(ms) => {
             if ms.iter().any(|m| not_inhabits(v, m, depth + 1).is_none()) {
